@@ -2,6 +2,7 @@ package hx
 
 import (
 	"fmt"
+	"reflect"
 	"sort"
 	"strings"
 
@@ -44,7 +45,8 @@ func ExecEq(op M) (res any) {
 		b = NLOf(v)
 	}
 	need := map[string][]bool{"flatNode": {n != nil}, "flatEdge": {e != nil}, "equalNode": {n != nil, m != nil},
-		"equalEdge": {e != nil, f != nil}, "equalNL": {a != nil, b != nil}, "diff": {n != nil, m != nil}, "apply": {n != nil, m != nil}}
+		"equalEdge": {e != nil, f != nil}, "equalNL": {a != nil, b != nil}, "diff": {n != nil, m != nil}, "apply": {n != nil, m != nil},
+		"equalAfterEdit": {n != nil, m != nil}, "equalNLAfterEdit": {a != nil, b != nil}, "equalRaw": {n != nil, m != nil}}
 	if req, ok := need[name]; ok {
 		for _, r := range req {
 			if !r {
@@ -84,8 +86,51 @@ func ExecEq(op M) (res any) {
 		return M{"added": NodeJ(d.Added), "removed": NodeJ(d.Removed), "count": float64(d.DiffCount)}
 	case "apply":
 		return NodeJ(ApplyDiff(n, n.Diff(m)))
+	case "equalAfterEdit":
+		// equality and checksum are functions of the current value: a caller that holds the pointer
+		// and assigns fields between two comparisons gets the answer for the new value
+		ref := NodeOf(op["n"])
+		before := n.Equal(ref)
+		sumBefore := n.Checksum() == ref.Checksum()
+		overwriteNode(n, m)
+		fresh := NodeOf(op["m"])
+		return M{"before": before, "sumBefore": sumBefore, "afterVsOld": n.Equal(ref), "afterVsNew": n.Equal(fresh),
+			"sumAfter": n.Checksum() == fresh.Checksum(), "fresh": fresh.Equal(ref)}
+	case "equalNLAfterEdit":
+		ref := NLOf(op["a"])
+		before := a.Equal(ref)
+		if len(a.Nodes) == len(b.Nodes) {
+			for i := range a.Nodes {
+				overwriteNode(a.Nodes[i], b.Nodes[i])
+			}
+		} else {
+			a.Nodes = b.Nodes
+		}
+		a.Edges, a.RootElements = b.Edges, b.RootElements
+		fresh := NLOf(op["b"])
+		return M{"before": before, "afterVsOld": a.Equal(ref), "afterVsNew": a.Equal(fresh), "fresh": fresh.Equal(ref)}
+	case "equalRaw":
+		// text that is not valid UTF-8 is still text the operands differ or agree in
+		suffix := []string{"", "\xff\xfe", "\xff\xfd", "\xc3"}
+		n.Name += suffix[asInt(op["sn"])%4]
+		m.Name += suffix[asInt(op["sm"])%4]
+		if _, ok := op["x"]; !ok {
+			return M{"eq": n.Equal(m), "sum": n.Checksum() == m.Checksum()}
+		}
+		la := &sbom.NodeList{Nodes: []*sbom.Node{n, NodeOf(op["x"])}, RootElements: []string{n.Id}}
+		lb := &sbom.NodeList{Nodes: []*sbom.Node{m, NodeOf(op["y"])}, RootElements: []string{m.Id}}
+		return M{"eq": la.Equal(lb), "sum": true}
 	}
 	return "unknown-op"
+}
+
+// overwriteNode assigns every exported attribute of src to dst, leaving dst the same object
+func overwriteNode(dst, src *sbom.Node) {
+	dst.Id, dst.Type = src.Id, src.Type
+	dv, sv := reflect.ValueOf(dst).Elem(), reflect.ValueOf(src).Elem()
+	for _, f := range NodeAttrs {
+		dv.Field(f.Index).Set(sv.Field(f.Index))
+	}
 }
 
 // ApplyDiff rebuilds the second node's attributes from the first node and the reported
@@ -504,6 +549,28 @@ func eqGen(g *G, tier string) []M {
 			// triples for transitivity: base, a permutation, a permutation of that
 			ops = append(ops, M{"op": "equalNode", "n": g.permuteNode(base), "m": g.permuteNode(base), "kind": "permuted"})
 		}
+		// every tenth comparison also as "compare, edit the first operand in place, compare again", and
+		// with names that are not valid UTF-8
+		if last := ops[len(ops)-1]; i%10 == 3 {
+			switch asStr(last["op"]) {
+			case "equalNode":
+				ops = append(ops, M{"op": "equalAfterEdit", "n": last["n"], "m": last["m"], "kind": last["kind"]})
+				raw := M{"op": "equalRaw", "n": last["n"], "m": last["m"], "kind": last["kind"], "sn": float64(1 + g.Int(3)), "sm": float64(1 + g.Int(3))}
+				if g.Chance(0.5) {
+					raw["sm"] = raw["sn"]
+				}
+				if g.Chance(0.5) {
+					raw["x"] = g.Node("x", 0.3)
+					raw["y"] = raw["x"]
+					if g.Chance(0.6) {
+						raw["y"], _ = g.perturb(raw["x"].(M))
+					}
+				}
+				ops = append(ops, raw)
+			case "equalNL":
+				ops = append(ops, M{"op": "equalNLAfterEdit", "a": last["a"], "b": last["b"], "kind": last["kind"]})
+			}
+		}
 	}
 	return ops
 }
@@ -802,6 +869,44 @@ func oracleEq(op M, res any, exec func(M) any) []Finding {
 		if (cn == cm) != eq {
 			add("C13", "node equality disagrees with checksum equality")
 		}
+	case "equalAfterEdit", "equalNLAfterEdit":
+		r, ok := res.(M)
+		if !ok {
+			break
+		}
+		what := "node"
+		if asStr(op["op"]) == "equalNLAfterEdit" {
+			what = "node list"
+		}
+		if r["before"] != true || (what == "node" && r["sumBefore"] != true) {
+			add("C13", "a %s does not compare equal to a value built from the same description", what)
+		}
+		if r["afterVsNew"] != true {
+			add("C13", "a %s edited in place between two comparisons does not compare equal to a fresh value with the new content", what)
+		}
+		if what == "node" && r["sumAfter"] != true {
+			add("C13", "the checksum of a node edited in place is not the checksum of a fresh node with the new content")
+		}
+		if r["afterVsOld"] != r["fresh"] {
+			add("C13", "a %s edited in place compares %v with its old content, fresh values with the same two contents compare %v", what, r["afterVsOld"], r["fresh"])
+		}
+	case "equalRaw":
+		r, ok := res.(M)
+		if !ok {
+			break
+		}
+		n, m := op["n"].(M), op["m"].(M)
+		same := nodeContentEqual(n, m) && asInt(op["sn"]) == asInt(op["sm"])
+		if _, isList := op["x"]; isList {
+			same = same && asStr(n["id"]) == asStr(m["id"]) && nodeContentEqual(op["x"].(M), op["y"].(M))
+			if same != (r["eq"] == true) {
+				add("C13", "node lists whose names are not valid UTF-8 compare %v, their content is the same: %v", r["eq"], same)
+			}
+			break
+		}
+		if same != (r["eq"] == true) || same != (r["sum"] == true) {
+			add("C13", "nodes whose names are not valid UTF-8 compare %v (checksums equal: %v), their content is the same: %v", r["eq"], r["sum"], same)
+		}
 	case "equalEdge":
 		e, f := op["e"].(M), op["f"].(M)
 		eq, _ := res.(bool)
@@ -926,6 +1031,10 @@ var EqStream = &Stream{
 		return k == "perturbed" || k == "permuted" || strings.HasPrefix(asStr(op["op"]), "flat")
 	},
 	Reps: 2,
+	NoModel: func(op M) bool {
+		o := asStr(op["op"])
+		return o == "equalAfterEdit" || o == "equalNLAfterEdit" || o == "equalRaw"
+	},
 }
 
 func diffGen(g *G, tier string) []M {
